@@ -143,6 +143,12 @@ func (e *Enc) shape(t types.Type) []Leaf {
 		e.shapes[k] = out
 		return out
 	}
+	if strings.HasSuffix(k, "internal/verifspec.Bits256") {
+		// ghost bit-stream window: a 256-bit vector (see bsAppend / bsTake in contracts)
+		out = []Leaf{{"", BV(e.bitsWidth()), nil, "bits256"}}
+		e.shapes[k] = out
+		return out
+	}
 	switch u := t.Underlying().(type) {
 	case *types.Basic:
 		out = []Leaf{{"", e.sortOfBasic(u), t, ""}}
@@ -735,4 +741,18 @@ func (e *Enc) fieldArrayRef(root types.Type, path string, ref T) T {
 	e.farrMemo[mk] = t.E
 	e.farrBase[t.E] = ref.E
 	return t
+}
+
+// bitsWidth is the width of the ghost bit-stream window (verifspec.Bits256): 256 bits, or what
+// the function under contract asks for with `opt bitswidth=N` (its preconditions on the
+// primitives, stated with bsCap(), then bound what may be written).
+func (e *Enc) bitsWidth() int {
+	if e.contract != nil {
+		if v := e.contract.Opts["bitswidth"]; v != "" {
+			if n, err := strconv.Atoi(v); err == nil && n >= 64 && n <= 1024 {
+				return n
+			}
+		}
+	}
+	return 256
 }
